@@ -184,7 +184,7 @@ def out_correspondence(ctx, n):
     import cssutils
     from cssutils.serialize import Out
     rng = ctx.rng
-    VALS = ['a', 'b1', 'red', '1px', '{', '}', ';', ':', ',', '+', '>', '~', '(', ')', '[', ']', '/', '=', 'x y', 'f(', '-', '*', 'x ', ' ', '!important', '"s"', '#AABBCC', '#abc', '']
+    VALS = ['a', 'b1', 'red', '1px', '{', '}', ';', ':', ',', '+', '>', '~', '(', ')', '[', ']', '/', '=', 'x y', 'f(', '-', '*', 'x ', ' ', 'a\\ ', '\\ ', 'b\\  ', '!important', '"s"', '#AABBCC', '#abc', '']
     TYPES = [None, None, None, 'STRING', 'HASH', 'S', 'FUNCTION', 'IDENT', 'styletext', 'COMMENT0']
     LAYOUT_KEYS = ['spacer', 'listItemSpacer', 'propertyNameSpacer', 'paranthesisSpacer', 'selectorCombinatorSpacer', 'lineSeparator', 'indent']
     cases, wants, metas = [], [], []
